@@ -86,6 +86,7 @@ type QueueSnap struct {
 	QPDue       bool             `json:"qpDue"`
 	QPRunning   bool             `json:"qpRunning"`
 	HeadRoom    map[string]int64 `json:"headroom"`
+	EffMax      map[string]int64 `json:"effMax"`
 }
 
 type AskSnap struct {
@@ -243,6 +244,12 @@ func snapQueue(q *objects.Queue, out map[string]*QueueSnap) {
 	}
 	sort.Strings(qs.Children)
 	qs.QPSet, qs.QPDue, qs.QPRunning = q.VerifQuotaPreemptionState()
+	if em := q.GetMaxResource(); em != nil {
+		qs.EffMax = map[string]int64{}
+		for k, v := range em.Resources {
+			qs.EffMax[k] = int64(v)
+		}
+	}
 	out[qs.Path] = qs
 	for _, c := range children {
 		snapQueue(c, out)
